@@ -320,52 +320,66 @@ pub fn work(spec: &Value, w: &mut WorkerCtx)
 			// member lists against declared word sizes
 			let sizes = [("i8", 1), ("u8", 1), ("bool", 1), ("i16", 2), ("u16", 2), ("i32", 4), ("u32", 4), ("i64", 8), ("u64", 8), ("i128", 16), ("W8", 1), ("W16", 2)];
 			let helpers = "word8 W8\n{\n\ta: u8,\n}\nword16 W16\n{\n\ta: u8,\n\tb: u8,\n}\n";
+			// member lists: every list of up to 3 members over all 12 member types, and every list
+			// of 4 or 5 members over the four unsigned widths (padding between members only shows
+			// with "large, small, medium, small" shapes)
+			let mut lists: Vec<Vec<(&str, usize)>> = Vec::new();
+			for a in 0..sizes.len()
+			{
+				lists.push(vec![sizes[a]]);
+				for b in 0..sizes.len()
+				{
+					lists.push(vec![sizes[a], sizes[b]]);
+					for c in 0..sizes.len()
+					{
+						lists.push(vec![sizes[a], sizes[b], sizes[c]]);
+					}
+				}
+			}
+			let narrow = [("u8", 1usize), ("u16", 2), ("u32", 4), ("u64", 8)];
+			for len in 4..=5usize
+			{
+				for code in 0..narrow.len().pow(len as u32)
+				{
+					let mut c = code;
+					let mut l = Vec::new();
+					for _ in 0..len
+					{
+						l.push(narrow[c % narrow.len()]);
+						c /= narrow.len();
+					}
+					lists.push(l);
+				}
+			}
 			for bits in [8usize, 16, 32, 64, 128]
 			{
-				for a in 0..sizes.len()
+				for members in &lists
 				{
-					for b in 0..=sizes.len()
+					// size with natural alignment (capped at 8), as for structures
+					let mut total = 0usize;
+					let mut max_align = 1usize;
+					for m in members
 					{
-						for c in 0..=sizes.len()
-						{
-							if b == sizes.len() && c != sizes.len()
-							{
-								continue;
-							}
-							let mut members = vec![sizes[a]];
-							if b < sizes.len()
-							{
-								members.push(sizes[b]);
-							}
-							if c < sizes.len()
-							{
-								members.push(sizes[c]);
-							}
-							// size with natural alignment (capped at 8), as for structures
-							let mut total = 0usize;
-							let mut max_align = 1usize;
-							for m in &members
-							{
-								let align = m.1.min(8);
-								max_align = max_align.max(align);
-								total = (total + align - 1) / align * align + m.1;
-							}
-							total = (total + max_align - 1) / max_align * max_align;
-							if total > 32
-							{
-								continue;
-							}
-							let body: String = members.iter().enumerate().map(|(i, m)| format!("\tm{i}: {},\n", m.0)).collect();
-							let decl = format!("word{bits} X\n{{\n{body}}}\n");
-							let main = "fn main()\n{\n}\n";
-							let texts = vec![format!("{helpers}{decl}{main}"), format!("{decl}{main}{helpers}")];
-							// larger than declared: E380; exactly the declared size: accepted; smaller: the
-							// property only names words larger than declared
-							let expect = if total * 8 == bits { Some(vec![]) } else if total * 8 > bits { Some(vec![380]) } else { None };
-							w.result.transitions += 2;
-							judge_orders(&texts, expect, &format!("word{bits} with members of {total} bytes"), w);
-						}
+						let align = m.1.min(8);
+						max_align = max_align.max(align);
+						total = (total + align - 1) / align * align + m.1;
 					}
+					total = (total + max_align - 1) / max_align * max_align;
+					if total > 32
+					{
+						continue;
+					}
+					let body: String = members.iter().enumerate().map(|(i, m)| format!("\tm{i}: {},\n", m.0)).collect();
+					let decl = format!("word{bits} X\n{{\n{body}}}\n");
+					let main = "fn main()\n{\n}\n";
+					let texts = vec![format!("{helpers}{decl}{main}"), format!("{decl}{main}{helpers}")];
+					// larger than declared: E380; exactly the declared size: accepted; smaller: the
+					// property only names words larger than declared
+					let expect = if total * 8 == bits { Some(vec![]) } else if total * 8 > bits { Some(vec![380]) } else { None };
+					w.result.transitions += 2;
+					let sum: usize = members.iter().map(|m| m.1).sum();
+					let what = if sum * 8 <= bits && total * 8 > bits { format!("word{bits} whose members sum to {sum} bytes but occupy {total} with padding") } else { format!("word{bits} with members of {total} bytes") };
+					judge_orders(&texts, expect, &what, w);
 				}
 			}
 		}
